@@ -34,9 +34,12 @@ class JsonDeserializer {
 
     err = parseVariant(variant, filter, nestingLimit);
 
-    if (!err && latch_.last() != 0 && variant.isFloat()) {
+    if (!err && variant.isFloat()) {
       // We don't detect trailing characters earlier, so we need to check now
-      return DeserializationError::InvalidInput;
+      // (whitespace after a number is legal)
+      char c = char(latch_.last());
+      if (c != '\0' && c != ' ' && c != '\t' && c != '\r' && c != '\n')
+        return DeserializationError::InvalidInput;
     }
 
     return err;
